@@ -52,6 +52,15 @@ pub fn siqs(
     tpool: Option<&rayon::ThreadPool>,
 ) -> Result<Vec<Uint>, UnexpectedFactor> {
     let (norig, n) = (n, n * Uint::from(k));
+    // All polynomial values are assumed to fit in 256 bits (A ~ sqrt(2n)/M, C ~ sqrt(n) M,
+    // see the assertions of _finish_polynomial): like MPQS, refuse numbers above 448 bits
+    // instead of failing these assertions (they fail from about 464 bits).
+    if n.bits() > 448 {
+        if prefs.verbose(Verbosity::Info) {
+            eprintln!("Number {n} too large for quadratic sieve!");
+        }
+        return Ok(vec![]);
+    }
     let use_double = prefs.use_double.unwrap_or(n.bits() > 256);
     // Choose factor base. Sieve twice the number of primes
     // (n will be a quadratic residue for only half of them)
